@@ -44,7 +44,7 @@ class Contract:
         self.trusted = opts.get("trusted", False)   # contract assumed, body not verified (listed as such)
         self.scope = opts.get("scope")
         self.opts = opts
-        self.requires, self.ensures, self.canaries = [], [], []
+        self.requires, self.ensures, self.canaries, self.lemmas = [], [], [], []
         self.raises = []          # Clause(kind raises, expr=when, name=exc)
         self.raises_none = False
         self.returns_expr = None
@@ -77,6 +77,8 @@ class Contract:
             elif fn == "returns":
                 n_e += 1
                 self.returns_expr = Clause("returns", call.args[0], nm or "returns", kw, st.lineno)
+            elif fn == "lemma":
+                self.lemmas.append(Clause("lemma", call.args[0], nm or f"lemma#{len(self.lemmas)+1}", kw, st.lineno))
             elif fn == "canary":
                 self.canaries.append(Clause("canary", call.args[0], nm or f"canary#{len(self.canaries)+1}", kw, st.lineno))
             elif fn == "raises":
